@@ -14,10 +14,12 @@
      BRT <a> ok <name> | err | panic               NameFromBytes(Name.Bytes())
      FROMBYTES <hex> ok <name> | err               NameFromBytes
      CFB <hex> ok=<comp> | err | panic             ComponentFromBytes
-     HIN <typ> <x:hex | f:len:seed> <streamlen> <stream or its first 64 bytes> <ends-with-value 0|1>
-                                                   the bytes Component.HashInto writes into a recording hash.Hash
-     HNAME <a> <stream hex> <0|1>                  concatenated HashInto streams of the components; 1 = Hash/PrefixHash/Component.Hash
-                                                   equal xxhash of exactly these bytes
+     HIN <typ> <x:hex | z:len> <stream> <det 0|1>  the bytes Component.HashInto writes into a recording hash.Hash (z = zero-filled value)
+     HPAIR <typ> <spec> <typ> <spec> <stream> <stream> <det>    the same for two components (replay form of a set-level failure)
+     HNAME <a> <stream,stream,...|none> <0|1>      HashInto streams of the components; 1 = Hash/PrefixHash[i]/Component.Hash equal
+                                                   xxhash of exactly the concatenated streams
+     The hash-input oracle is layout agnostic: determinism, and over all components of the run no stream is empty, equal to
+     or a prefix of the stream of a different component (layout_pair_ok); a layout other than comp_hash_input is a NOTE.
      HASH <a> <0|1>                                relational hash checks done in Go (1 = held)
      STR <a> <hex>                                 Name.String
      RT <a> ok <name> | err | panic                NameFromStr(Name.String())
@@ -101,6 +103,19 @@ let pres_comp_of (s : string) : comp pres =
   else if String.length s > 3 && String.sub s 0 3 = "ok=" then POk (comp_of_string (String.sub s 3 (String.length s - 3)))
   else failwith "bad result"
 
+(* value specs of the hash-input lines *)
+let val_of_spec (spec : string) : n list =
+  match String.split_on_char ':' spec with
+  | ["x"; h] -> bytes_of_hex h
+  | ["z"; l] -> List.init (int_of_string l) (fun _ -> N0)
+  | _ -> failwith ("bad value spec " ^ spec)
+let spec_of_val (v : n list) : string =
+  if List.length v > 32 && List.for_all (fun x -> x = N0) v then "z:" ^ string_of_int (List.length v) else "x:" ^ hex_of_bytes v
+
+(* recorded hash-input streams of the run: component key ("typ spec") -> (component, stream hex, first line) *)
+let streams : (string, comp * string * int) Hashtbl.t = Hashtbl.create 4096
+let model_layout_differs = ref 0
+
 (* operands of an APAIR line: slices of one name (see harness/names deriveAlias; the value of the operands only) *)
 let rec take k l = if k <= 0 then [] else match l with [] -> [] | x :: r -> x :: take (k-1) r
 let rec drop k l = if k <= 0 then l else match l with [] -> [] | _ :: r -> drop (k-1) r
@@ -123,6 +138,15 @@ let () =
   let br s = "[" ^ s ^ "]" in
   let cut s = if String.length s > 600 then String.sub s 0 600 ^ "..." else s in
   let cmpstr kind m i = if m <> i then diverge kind (br (cut m)) (br (cut i)) in
+  let add_stream key (c : comp) (st : string) =
+    (* (a) determinism across the whole run: the stream is a function of (type, value) *)
+    (match Hashtbl.find_opt streams key with
+     | Some (_, st0, ln0) ->
+         if st0 <> st then specfail "HLAYOUT" (Printf.sprintf "HashInto fed different bytes for the same component at lines %d and %d" ln0 !lineno)
+     | None ->
+         Hashtbl.add streams key (c, st, !lineno);
+         (* the modelled instance: a difference is not a violation (any prefix-free layout is fine) *)
+         if st <> hexf (comp_hash_input c) then incr model_layout_differs) in
   let check_pair kind na nb c e p1 p2 cba heq ea eb =
     let m = String.concat " " [cmp_int (name_cmp na nb); b01 (name_eqb na nb); b01 (is_prefix na nb); b01 (is_prefix nb na);
                                cmp_int (name_cmp nb na)] in
@@ -145,7 +169,7 @@ let () =
       incr lineno;
       (try
       match String.split_on_char ' ' line with
-      | (("PAIR" | "APAIR" | "TRIPLE" | "COMP" | "HIN" | "HNAME" | "BYTES" | "STR" | "CSTR" | "HASH") as k) :: rest
+      | (("PAIR" | "APAIR" | "TRIPLE" | "COMP" | "HIN" | "HPAIR" | "HNAME" | "BYTES" | "STR" | "CSTR" | "HASH") as k) :: rest
         when (match List.rev rest with "panic" :: _ -> true | _ -> false) ->
           specfail k "the implementation panicked"
       | ["PAIR"; a; b; c; e; p1; p2; cba; heq; ea; eb] ->
@@ -185,29 +209,22 @@ let () =
           let m = match comp_from_bytes (unhexf h) with Some c -> "ok=" ^ string_of_comp c | None -> "err" in
           cmpstr "CFB" m r;
           if r = "panic" then specfail "CFB" "ComponentFromBytes panicked"
-      | ["HIN"; t; spec; slen; head; suf] ->
-          (* the exact bytes Component.HashInto wrote into a recording hasher, against comp_hash_input *)
-          let ty = n_of_dec t in
-          (match String.split_on_char ':' spec with
-           | ["x"; h] ->
-               let v = bytes_of_hex h in
-               let m = comp_hash_input { ctyp = ty; cval = v } in
-               let ml = List.length m in
-               let mh = if ml > 70100 then take 64 m else m in
-               cmpstr "HIN" (string_of_int ml ^ " " ^ hexf mh ^ " 1") (slen ^ " " ^ head ^ " " ^ suf)
-           | ["f"; l; sd] ->
-               (* value byte i = seed+i mod 256; too long to materialise: header from the model (hash_input_layout), then the
-                  first 48 value bytes, the total length, and the harness's "stream ends with the value" flag *)
-               let l = int_of_string l and sd = int_of_string sd in
-               let hd = comp_hash_header ty (n_of_int l) in
-               let first = List.init (min l 48) (fun i -> n_of_int ((sd + i) land 255)) in
-               let ml = List.length hd + l in
-               let mh = if ml > 70100 then hd @ first else hd @ List.init l (fun i -> n_of_int ((sd + i) land 255)) in
-               cmpstr "HIN" (string_of_int ml ^ " " ^ hexf mh ^ " 1") (slen ^ " " ^ head ^ " " ^ suf)
-           | _ -> failwith "bad HIN spec")
-      | ["HNAME"; a; stream; ok] ->
-          cmpstr "HNAME" (hexf (name_hash_input (name_of_string a))) stream;
-          if ok <> "1" then specfail "HNAME" "Name.Hash/PrefixHash/Component.Hash are not xxhash of the bytes HashInto feeds"
+      | ["HIN"; t; spec; st; det] ->
+          let c = { ctyp = n_of_dec t; cval = val_of_spec spec } in
+          if det <> "1" then specfail "HLAYOUT" "HashInto fed different bytes for the same component value (clone / second call)";
+          add_stream (t ^ " " ^ spec) c st
+      | ["HPAIR"; t1; sp1; t2; sp2; s1; s2; det] ->
+          let c = { ctyp = n_of_dec t1; cval = val_of_spec sp1 } and d = { ctyp = n_of_dec t2; cval = val_of_spec sp2 } in
+          if det <> "1" then specfail "HLAYOUT" "HashInto fed different bytes for the same component value (clone / second call)";
+          if not (layout_pair_ok c d (unhexf s1) (unhexf s2)) then
+            specfail "HLAYOUT" ("hash input: streams of these two components are empty, equal or one is a prefix of the other (layout_pair_ok) replay-as: "
+                                ^ String.concat " " ["HPAIR"; t1; sp1; t2; sp2])
+      | ["HNAME"; a; streams; ok] ->
+          let na = name_of_string a in
+          let sl = if streams = "none" then [] else String.split_on_char ',' streams in
+          if List.length sl <> List.length na then failwith "HNAME stream count";
+          List.iter2 (fun c st -> add_stream (dec_of_n c.ctyp ^ " " ^ spec_of_val c.cval) c st) na sl;
+          if ok <> "1" then specfail "HNAME" "Name.Hash / PrefixHash[i] / Component.Hash are not the hash of exactly the concatenated HashInto streams of the respective components (or HashInto is not deterministic)"
       | ["HASH"; a; ok] -> if ok <> "1" then specfail "HASH" "equal names hash differently or PrefixHash[i] <> Hash(prefix i)"
       | ["STR"; a; h] ->
           cmpstr "STR" (hexf (name_to_str (name_of_string a))) h
@@ -262,4 +279,28 @@ let () =
       with Failure msg -> Printf.printf "BADLINE %d (%s) %s\n" !lineno msg (cut line))
     done
   with End_of_file -> ());
+  (* (b) prefix-freeness over ALL components of the run.  Hex strings of equal case order like the bytes, so after sorting
+     the streams a stream that is a prefix of (or equal to) another one is a prefix of its immediate successor: it suffices to
+     evaluate the extracted oracle layout_pair_ok on adjacent entries. *)
+  let ents = Hashtbl.fold (fun k (c, st, ln) acc -> (st, k, c, ln) :: acc) streams [] in
+  let ents = List.sort (fun (s1, k1, _, _) (s2, k2, _, _) -> let r = compare s1 s2 in if r <> 0 then r else compare k1 k2) ents in
+  let best = ref None in
+  let rec scan = function
+    | (s1, k1, c1, l1) :: (((s2, k2, c2, l2) :: _) as rest) ->
+        let s1' = if s1 = "-" then "" else s1 and s2' = if s2 = "-" then "" else s2 in
+        let pre = String.length s1' <= String.length s2' && String.sub s2' 0 (String.length s1') = s1' in
+        if (pre || s1' = "") && not (layout_pair_ok c1 c2 (bytes_of_hex s1') (bytes_of_hex s2')) then begin
+          let size = String.length s1' + String.length s2' in
+          (match !best with Some (sz, _, _, _) when sz <= size -> () | _ -> best := Some (size, k1, k2, max l1 l2))
+        end;
+        scan rest
+    | [(s1, k1, c1, l1)] -> if s1 = "-" || s1 = "" then best := Some (0, k1, k1, l1)
+    | [] -> () in
+  scan ents;
+  (match !best with
+   | Some (_, k1, k2, ln) ->
+       Printf.printf "SPECFAIL %d HLAYOUT hash input: the streams HashInto feeds for two different components are equal or one is a prefix of the other (or a stream is empty), so concatenated streams do not determine the name (layout_pair_ok) replay-as: HPAIR %s %s\n" ln k1 k2
+   | None -> ());
+  if !model_layout_differs > 0 then
+    Printf.printf "NOTE 0 hash-input layout differs from the modelled instance comp_hash_input on %d component(s); the layout-agnostic oracle (determinism, prefix-freeness, hashes of concatenated streams) is what is checked\n" !model_layout_differs;
   Printf.printf "DONE %d\n" !lineno
